@@ -167,7 +167,89 @@ func c18Gen(tier string, seed int64) []fw.Case {
 			}
 		}
 	}
+	// the adapter's Close while one of its own calls is stuck: a Write to a peer that never reads, a Read that
+	// nothing arrives for, or both. Close returns within Conn.Close's bound and the stuck calls come back.
+	for _, role := range bothRoles {
+		for _, st := range []string{"write-blocked", "read-blocked", "both-blocked", "write-blocked-with-deadline"} {
+			for k := 0; k < tierPick(tier, 2, 10); k++ {
+				add(c18Desc{Kind: "close-blocked", Role: role, DL: st}, fmt.Sprintf("close-blocked/%s/%s", role, st))
+			}
+		}
+	}
 	return cases
+}
+
+// c18CloseBlocked: nc.Close() from another goroutine while nc.Write / nc.Read are stuck.
+func c18CloseBlocked(r *fw.R, d c18Desc) {
+	canaryMax.Store(0)
+	c, libEnd, peerEnd, err := libConn(d.Role, wire.Params{}, 0, xport.Plan{NoTap: true, Capacity: 2000}, xport.Plan{NoTap: true})
+	if err != nil {
+		r.Violate("C18/attach-failed", err.Error(), "")
+		return
+	}
+	defer c.CloseNow()
+	defer peerEnd.Close()
+	// (the peer never reads and never answers)
+	ctx, cancel := context.WithTimeout(context.Background(), 120*time.Second)
+	defer cancel()
+	nc := websocket.NetConn(ctx, c, websocket.MessageBinary)
+	what := fmt.Sprintf("%s NetConn.Close with %s", d.Role, d.DL)
+	r.Key("close-blocked/%s/%s", d.Role, d.DL)
+	wres, rres := make(chan error, 1), make(chan error, 1)
+	nw, nr := 0, 0
+	if d.DL != "read-blocked" {
+		if d.DL == "write-blocked-with-deadline" {
+			nc.SetWriteDeadline(time.Now().Add(time.Hour))
+		}
+		nw = 1
+		go func() { _, err := nc.Write(make([]byte, 50000)); wres <- err }()
+		for t0 := time.Now(); libEnd.ActiveWrites() == 0 && time.Since(t0) < 5*time.Second; {
+			time.Sleep(100 * time.Microsecond)
+		}
+	}
+	if d.DL == "read-blocked" || d.DL == "both-blocked" {
+		nr = 1
+		go func() { _, err := nc.Read(make([]byte, 10)); rres <- err }()
+		for t0 := time.Now(); libEnd.ActiveReads() == 0 && time.Since(t0) < 5*time.Second; {
+			time.Sleep(100 * time.Microsecond)
+		}
+	}
+	time.Sleep(2 * time.Millisecond)
+	cres := make(chan error, 1)
+	t0 := time.Now()
+	go func() { cres <- nc.Close() }()
+	select {
+	case <-cres:
+	case <-time.After(40 * time.Second):
+		if over := time.Duration(canaryMax.Load()); over > 5*time.Second {
+			r.Inconclusivef("%s: Close not back after 40 s, canary overslept %v", what, over)
+			return
+		}
+		r.Violate("C18/close-never-returned/"+d.DL, what+": Close had not returned after 40 s (its own calls were stuck in the transport; the documented bound of the close handshake is about 10 s)", "")
+		return
+	}
+	el := time.Since(t0)
+	r.Max("netconn_close_with_stuck_calls_ms", el.Milliseconds())
+	if el > c09CloseBound {
+		if over := time.Duration(canaryMax.Load()); !(over > c09CanaryLimit && 3*over > el-c09CloseBound) {
+			r.Violate("C18/close-too-slow/"+d.DL, fmt.Sprintf("%s: Close returned after %v", what, el.Round(time.Millisecond)), "")
+		}
+	}
+	for k, ch := range []chan error{wres, rres} {
+		if k == 0 && nw == 0 || k == 1 && nr == 0 {
+			continue
+		}
+		select {
+		case err := <-ch:
+			if err == nil {
+				r.Violate("C18/stuck-call-returned-nil-after-close/"+d.DL, fmt.Sprintf("%s: the stuck %s returned nil", what, []string{"Write", "Read"}[k]), "")
+			}
+		case <-time.After(20 * time.Second):
+			r.Violate("C18/stuck-call-not-released-by-close/"+d.DL, fmt.Sprintf("%s: the stuck %s had not returned 20 s after Close returned", what, []string{"Write", "Read"}[k]), "")
+			return
+		}
+	}
+	r.Count("netconn_closes_with_stuck_calls", 1)
 }
 
 func streamByte(dir uint64, i int64) byte {
@@ -211,6 +293,8 @@ func c18Run(r *fw.R, d c18Desc) {
 		c18WrongType(r, d)
 	case "deadline":
 		c18Deadline(r, d)
+	case "close-blocked":
+		c18CloseBlocked(r, d)
 	}
 }
 
